@@ -56,6 +56,7 @@ pub fn all() -> Vec<(&'static str, fn())> {
 	v.extend_from_slice(c09_kernels::LIST);
 	v.extend_from_slice(c11_inner::LIST);
 	v.extend_from_slice(c14_nest::LIST);
+	v.extend_from_slice(c14_nest::translate_proofs::LIST);
 	v.extend_from_slice(c13_merge::LIST);
 	v.extend_from_slice(c16_code::LIST);
 	v.extend_from_slice(c18_desc::LIST);
